@@ -2,7 +2,23 @@
     (the oracles of Value/Codec.v) returned for them when the harness called them directly, and
     what the implementation returned.  [*_mismatch]: model vs implementation.
     [*_violates]: the property acceptor rejects what the implementation did. *)
+From Coq Require Import Uint63.
 From WM Require Import Base.Prelude Message.Model Value.Model Value.Codec.
+
+(** long byte strings arrive packed, 7 bytes per primitive 63-bit integer (little endian), the
+    last word holding [tail] bytes: one cheap token per 7 bytes for Coq's parser.  Only the
+    evaluation of generated cases uses this; no theorem depends on it. *)
+Fixpoint word_bytes (k : nat) (w : Uint63.int) : list N :=
+  match k with
+  | O => []
+  | S k' => Z.to_N (Uint63.to_Z (Uint63.land w 255%uint63)) :: word_bytes k' (Uint63.lsr w 8%uint63)
+  end.
+Fixpoint pk (ws : list Uint63.int) (tail : nat) : list N :=
+  match ws with
+  | [] => []
+  | [w] => word_bytes tail w
+  | w :: r => word_bytes 7 w ++ pk r tail
+  end.
 
 (** the variant of the model that corresponds to the repository as it is now
     (after the fix: commits for D1 and for the gogo Unmarshal fallback) *)
